@@ -198,6 +198,7 @@ void World::exec_op(const Op &op) {
 		probe("fault:sockerr");
 		return;
 	}
+	if (k == "c19") { c19_send(*cl, op); return; }
 	if (k == "policy") { for (auto &kv : op.a.o) { bool rep = false; for (auto &x : cl->policy.o) if (x.first == kv.first) { x.second = kv.second; rep = true; } if (!rep) cl->policy.set(kv.first, kv.second); } return; }
 }
 
@@ -210,6 +211,7 @@ void World::quiescent_point() {
 		if (np > base_peers + open) violation(plan.hdr.gets("baseprop", "C07"), "orphan-peer", "the daemon counts " + std::to_string(np) + " peers while only " + std::to_string(open) + " connections are open");
 	}
 	c10_quiescent();
+	c19_quiescent();
 	for (auto &c : clients) {
 		if (c.policy.gets("expect_http") == "reject" && c.hs_sent && c.accepted && !c.daemon_closed && !c.http_err_seen)
 			violation("C13", "invalid-request-not-answered", "a complete request that is not a valid upgrade (" + c.policy.gets("defect") + ") was neither answered with an error status nor closed");
